@@ -5,6 +5,7 @@ use serde_json::{json, Value};
 use std::time::{Duration, Instant};
 
 pub mod chan;
+pub mod reg;
 
 #[derive(Clone, Copy, PartialEq, Debug)]
 pub enum Tier {
@@ -26,6 +27,7 @@ pub fn item(run: impl Runnable + 'static, bound: Option<u32>, note: &'static str
 pub fn scenarios(prop: &str, tier: Tier) -> Option<Vec<Item>> {
     match prop {
         "C06" | "C07" | "C08" => Some(chan::scenarios(prop, tier)),
+        "C01" | "C02" | "C04" | "C18" => Some(reg::scenarios(prop, tier)),
         _ => None,
     }
 }
@@ -68,6 +70,11 @@ pub fn owns(prop: &str, class: &str) -> bool {
         "C06" => &["C06", "race"],
         "C07" => &["C07", "race"],
         "C08" => &["C08", "livelock", "deadlock", "crash", "hung", "panic"],
+        "C01" => &["C01", "race"],
+        "C02" => &["C02"],
+        "C03" => &["C03", "alloc", "crash", "hung"],
+        "C04" => &["C04"],
+        "C18" => &["C18", "deadlock", "livelock", "hung"],
         _ => return class != "engine",
     };
     own.contains(&class)
